@@ -185,8 +185,13 @@ namespace sim
 			, out_request.data(), out_request.size());
 		m_num_server_out_bytes += int(out_request.size());
 
+		// an earlier request is still setting up the server connection. This
+		// one is queued and will be sent along once that is done
+		if (m_connecting) return;
+
 		if (!m_server_connection.is_open())
 		{
+			m_connecting = true;
 			boost::system::error_code err;
 			tcp::endpoint target(make_address(host.c_str(), err)
 				, static_cast<unsigned short>(port));
@@ -222,6 +227,7 @@ namespace sim
 			{
 				std::printf("http_proxy::on_request_domain_lookup: empty response\n");
 			}
+			m_connecting = false;
 			error(503, "Resource Temporarily Unavailable");
 			return;
 		}
@@ -249,6 +255,7 @@ namespace sim
 
 	void http_proxy::on_connected(boost::system::error_code const& ec)
 	{
+		m_connecting = false;
 		if (ec)
 		{
 			std::printf("http_proxy::on_connected() connection failed: %s\n", ec.message().c_str());
@@ -337,6 +344,7 @@ namespace sim
 		m_num_client_in_bytes = 0;
 		m_num_server_out_bytes = 0;
 		m_num_in_bytes = 0;
+		m_connecting = false;
 
 		error_code err;
 		m_client_connection.close(err);
